@@ -68,8 +68,9 @@ FM(target, data) ==
 
 \* equality of value trees ignoring the Go-width hint "w" of generated integers
 RECURSIVE Same(_, _)
-Same(x, y) == IF x.t # y.t THEN FALSE
-              ELSE IF x.t \in {"obj", "filter"} THEN DOMAIN x.m = DOMAIN y.m /\ \A k \in DOMAIN x.m : Same(x.m[k], y.m[k])
+\* (Simplify() hands back plain maps: a filter node and an object node are the same thing here)
+Same(x, y) == IF x.t \in {"obj", "filter"} /\ y.t \in {"obj", "filter"} THEN DOMAIN x.m = DOMAIN y.m /\ \A k \in DOMAIN x.m : Same(x.m[k], y.m[k])
+              ELSE IF x.t # y.t THEN FALSE
               ELSE IF x.t = "arr" THEN Len(x.v) = Len(y.v) /\ \A j \in 1..Len(x.v) : Same(x.v[j], y.v[j])
               ELSE IF x.t = "int" THEN IntKey(x) = IntKey(y)
               ELSE IF x.t = "flt" THEN x.s = y.s
